@@ -255,9 +255,7 @@ class Drv:
         if kind == 1:
             size = min(size, 5000)
         # aim the boundary either at the core or at the whole text
-        clen = max(0, size - lead - trail) if r.random() < 0.4 else size
-        if clen == 0 and r.random() < 0.5:
-            pass                                               # white space only / nothing
+        clen = max(0, size - lead - trail) if r.random() < 0.4 else size     # clen = 0: white space only, or nothing
         self.lines.append("RUN %d %d %d %d %d %d %d %d" % (p, kind, lead, clen, r.randrange(1, 10 ** 6), r.randint(0, 1), trail, ex))
 
 
@@ -460,7 +458,8 @@ def run(ctx):
         # no "ERR" lines: vh_core would raise them in the coordinator; stale codes are STALE steps made in a worker
         pipeline.drive_and_validate(ctx, exe, execs, SPEC_DIR, "CrossProcessLockTrace", "Trace.cfg", label="xproc",
                                     stale_errors=0, tlc_env={"VERIF_DEV_" + d: "1" for d in devs}, on_fired=on_fired,
-                                    harness_timeout=400, tlc_timeout=1500)
+                                    harness_timeout=400, tlc_timeout=1500,
+                                    nbatch=max(16, len(execs) // 60))     # short batches: the harness watchdog is 120 s
     finally:
         for nm in sorted(fired):
             rec = devs.get(nm, {})
